@@ -57,7 +57,11 @@ impl<C: PixelColor> Iterator for StyledPixelsIterator<C> {
     fn next(&mut self) -> Option<Self::Item> {
         loop {
             if let Some(p) = self.current_line.next() {
-                return Some(Pixel(p, self.current_color?));
+                // Scanlines without a color (e.g. a stroke width without a stroke color) aren't
+                // drawn. Like in `draw_styled` they must be skipped instead of ending the iterator.
+                if let Some(color) = self.current_color {
+                    return Some(Pixel(p, color));
+                }
             } else {
                 let (next_line, next_type) = self.lines_iter.next()?;
 
